@@ -84,7 +84,8 @@ CLAIMED['C02'] = dict(
          'answers that need a capture name one that exists, every function between use and declaration carries it, module-level '
          'answers record nothing, capture counts match the capture lists); Compiler::child starts a nested function without the '
          'module table, locals or captures, so enclosing locals shadow module names; the implicit return of an initialiser reads self through its box when a '
-         'closure captured it (found and fixed F40: B().x undefined after init() { self.x = 1; let f = || self; }). The resolver pass '
+         'closure captured it (found and fixed F40: B().x undefined after init() { self.x = 1; let f = || self; }). Resolver::super_ / self_ for every kind of enclosing function: the implicit self of `super.m()` is resolved only in a method or initialiser '
+         '(found and fixed F77: `super` in a static method bound the self of an unrelated enclosing method). The resolver pass '
          '(which locals become boxes) and the emission per symbol state elsewhere are not yet machine checked.',
     note='Trusted: rustc MIR printer, mirsym, abstract object identities + identity-indexed heap arrays (vmabs.py), Z3. '
          'Captures / LyBox / Closure accessors are executed from laythe_core MIR.',
@@ -133,7 +134,10 @@ CLAIMED['C13'] = dict(
          'entry cannot be handed to another class (found and fixed F46: the caches were not traced, a stale entry was hit after a '
          'collection - segmentation fault on the gc_stress build). C13.K1.property_slots_in_bounds: every field slot an entry or a compile-time '
          'slot names is inside the instance it is applied to, with instance length uninterpreted (found and fixed F53: a class extended '
-         'after instances existed indexed past the instance).',
+         'after instances existed indexed past the instance).'
+         ' op_invoke is covered too, with Instance::get_field executed from MIR instead of summarised (found and fixed F67: invoke on an import object older than the export it '
+         'names panicked). C13.K1.export_forgets_shadowed_entries: the invariant "no field of the class shadows a cached method" under op_export, the one operation that adds a '
+         'field to a class with live call sites (found and fixed F74: a site warmed before `export fn str()` kept calling Object.str).',
     note='Trusted: rustc MIR printer, mirsym, abstract object identities, call summary at resolve_call, Z3. Slot ids in range: C19.K1.',
     ref='§4 C13')
 
@@ -160,7 +164,7 @@ CLAIMED['C20'] = dict(
          'handles (1-2 old, 2 nursery, 1-2 boxed, nursery and full sweeps via symbolic gc_count): bytes_allocated equals the sum of '
          'the survivors\' sizes, next_gc is exactly twice that, survivors are unmarked again, the nursery is emptied. Real type sizes '
          'come from rustc -Zprint-type-sizes of the same tree. Vector growth / forwarding blocks and non-object boxed allocations '
-         '(Box<dyn Manage> sizes) are not yet covered. C20.K4 Vm::call_native with the native summarised by its result and any number of temporary '
+         '(Box<dyn Manage> sizes) are not yet covered. C20.K1.forwarded_list_size: the block a grown list leaves behind reports its own size, not the size of the block it forwards to. C20.K4 Vm::call_native with the native summarised by its result and any number of temporary '
          'roots left behind on the error result: the roots are released before the error is handed on (found and fixed F66: one leaked root per '
          'caught error in the natives that call back, unbounded growth with bounded live data). Found and fixed F1 (string dealloc layout) and F2 (nursery accounting).',
     note='Trusted: rustc MIR printer and type-size printer, mirsym, block memory model (obl/memabs.py: usize words in a z3 array, '
@@ -177,7 +181,9 @@ CLAIMED['C05'] = dict(
          'marked object, releases nothing twice, sweeps only after the context and every temporary root were traced, roots the '
          'newborn object and leaves no intern entry pointing at a released string. Fields that are redundant by a stated invariant '
          '(iterator `current` mirrored in Enumerator.current, error classes, Class.init, Vm.builtin / global_module / current_fun) '
-         'are listed as assumptions, not checked; the inline caches, first assumed weak, are now required to be traced (F46); C05.K1.roots_compiler does the same for the roots the compiler holds while it allocates. Not decided: the element loops of the managed containers\' own '
+         'are listed as assumptions, not checked; the inline caches, first assumed weak, are now required to be traced (F46); the rooting automaton also treats what a callback returns as a newborn (found and fixed F70: reduce accumulator) and a summarised call that is handed the hooks '
+         'and an unprotected newborn as a risk inside that call, unless the MIR of List::push / insert shows they root the value they add (found and fixed F68: '
+         'List::push grew the list before storing the value); C05.K3.runtime_error_message_rooted follows Vm::runtime_error (found and fixed F69: message unrooted while the stack grows); C05.K1.roots_compiler does the same for the roots the compiler holds while it allocates. Not decided: the element loops of the managed containers\' own '
          'traces (Array, UniqueVector, RawSharedVector), `dyn` natives and enumerators (listed as not encoded in the evidence), and the '
          'composition into "same output under every collection schedule". C05.K3 temporary-root discipline: every native of laythe_lib '
          '(the C16.K4 sweep, about 115 of 123 decided) and every `impl Enumerate::next` runs from MIR with every call observed; on each '
@@ -213,7 +219,9 @@ CLAIMED['C11'] = dict(
          'of bounds) and F15 (fractional / NaN indices truncated); C11.K3 take / map / filter as stream functions; C11.K4 string[x] by '
          'characters; C11.K5 the map iterator across ANY history of inserts / removals between two next() calls advances a hash-table '
          'iterator only on the table generation it was created from (found and fixed F31: use after free of the reallocated buckets, '
-         'replayed under valgrind). Map / Tuple / String natives\' results and the other adaptors are not machine checked.',
+         'replayed under valgrind); the same generation model on Map.str, whose str() callbacks may change the map (found and fixed F73), and for lists '
+         'every native that calls back takes elements only from a slice view obtained after the last callback (found and fixed F71: List.str printed '
+         'elements a str() callback had removed and read freed memory). Map / Tuple / String natives\' results and the other adaptors are not machine checked.',
     note='Trusted: rustc MIR printer and type-size printer, mirsym, block memory model (obl/memabs.py), f64::fract characterised by its '
          'sign / zero / magnitude facts instead of bit-blasted, error construction (call_error) and format! abstracted, Z3 FP theory.',
     ref='§4 C11')
@@ -250,7 +258,8 @@ CLAIMED['C17'] = dict(
          'child of a fiber that sleeps in an import: only the module fiber may resume the importer (found F30: any child launched '
          'before the import resumed it while the module body was blocked; replayed natively; fixed); C17.K2 loading a module file '
          'leaves the package table alone (F45: a user std.lay imported as self.std replaced the std package). Other scheduling histories of concurrent importers are not '
-         'machine checked.',
+         'machine checked. C17.K2.only_own_package_loads_files: Vm::import_module asks the file loader only for the program\'s own package (found and fixed F76: `import std.util` ran ./util.lay); '
+         'load_missing_module registers a module under its parent only once it has compiled (found and fixed F75: at the prompt the second import of a module that failed to compile bound an empty module object).',
     note='Trusted: rustc MIR printer, mirsym, abstract identities for modules / strings (paths compare by identity: interning is '
          'C09), laythe Map over the association-list hash map model, Z3. Assumes the working directory exists.',
     ref='§4 C17')
@@ -277,7 +286,7 @@ CLAIMED['C16'] = dict(
          'call_native from any state with at most MAX_FRAME_SIZE frames push a frame only below the limit and otherwise raise the '
          'catchable stack-overflow error, so the call depth is bounded on every path, native callbacks included; C16.K3 op_inherit '
          'never accepts a builtin value class as superclass, which is what makes the unchecked receiver casts of the builtin '
-         'natives sound, and never hands the class being defined to Class::inherit as its own superclass (found and fixed F64: `class Object {}` '
+         'natives sound (C16.K7: no program comparator runs inside a standard library sort, which may panic on an order that is not total - found and fixed F72), and never hands the class being defined to Class::inherit as its own superclass (found and fixed F64: `class Object {}` '
          'panicked). Found and fixed F21 (recursion through native callbacks skipped the depth limit: host stack overflow) and '
          'F14 (class L : List {}: abort / segfault); C16.K4 every native declared in laythe_lib (signature constants and `native!` '
          'declarations read from the current sources; about 75 of 123 decided, the rest listed as not encoded in the evidence) runs '
